@@ -158,6 +158,12 @@ static const Op OPS[] = {
   OPZ(mpf_urandomb, "F=R", true, mpf_urandomb(F0, a.r, bc(a, 900) + 1), F_RAND),
   OPZ(gmp_asprintf_F, "=F", true, { char* p = nullptr; int n = gmp_asprintf(&p, "%.20Fe %Ff %.*Fg", F0, F0, (int)(a.u[2] % 30), F0); RI(n); r.sv.push_back(take_str(p)); }, F_STDIO),
   OPZ(gmp_sscanf_F, "F=", true, { int n = gmp_sscanf(a.str.c_str(), "%Ff", F0); RI(n); if (n != 1) mpf_set_ui(F0, 0); }, F_STDIO),
+  // clear + init_set forms: the destination is released and initialised afresh by the call under test
+  OPZ(mpz_init_set, "Z=Z", a.z[0] != a.z[1], { mpz_clear(Z0); mpz_init_set(Z0, Z1); }, 0), OPZ(mpz_init_set_ui, "Z=", true, { mpz_clear(Z0); mpz_init_set_ui(Z0, U0); }, 0), OPZ(mpz_init_set_si, "Z=", true, { mpz_clear(Z0); mpz_init_set_si(Z0, S0); }, 0),
+  OPZ(mpz_init_set_d, "Z=", std::isfinite(a.d), { mpz_clear(Z0); mpz_init_set_d(Z0, a.d); }, 0), OPZ(mpz_init_set_ux, "Z=", true, { mpz_clear(Z0); mpz_init_set_ux(Z0, (uintmax_t)U0); }, 0), OPZ(mpz_init_set_sx, "Z=", true, { mpz_clear(Z0); mpz_init_set_sx(Z0, (intmax_t)S0); }, 0),
+  OPZ(mpz_init_set_str, "Z=", true, { mpz_clear(Z0); RI(mpz_init_set_str(Z0, a.str.c_str(), a.base % 63 == 1 ? 0 : (int)((unsigned)a.base % 63))); }, 0),
+  OPZ(mpz_inits_clears, "ZZ=", a.z[0] != a.z[1], { mpz_clears(Z0, Z1, (mpz_ptr)0); mpz_inits(Z0, Z1, (mpz_ptr)0); mpz_set_ui(Z1, U0); }, 0),
+  OPZ(mpq_inits_clears, "Q=", true, { mpq_clears(Q0, (mpq_ptr)0); mpq_inits(Q0, (mpq_ptr)0); mpq_set_si(Q0, S0 % 1000, 1 + U0 % 1000); mpq_canonicalize(Q0); }, 0),
   OPZ(mpf_rrandomb, "F=R", true, mpf_rrandomb(F0, a.r, (mp_size_t)(a.s[0] % 9), (mp_exp_t)(a.u[2] % 50)), F_RAND),
 };
 static const size_t NOPS = sizeof OPS / sizeof OPS[0];
